@@ -372,6 +372,19 @@ func checkC17(c *Ctx, r *Report) {
 		for _, f := range c.FuncsNamed("(*" + configPkg + ".ConfigProp).Stage") {
 			r.Check(findCall(f, "(*"+configPkg+".overwritable).SetNoClear") != nil, "C17.R4", "Stage keeps the override (SetNoClear on a copy of the committed cell)", c.Pos(f.Pos()), "SetNoClear", "Stage does not use SetNoClear")
 		}
+		for _, f := range c.FuncsNamed("(*" + configPkg + ".ConfigProp).Overwrite") {
+			isRec := func(in ssa.Instruction) bool {
+				x, ok := in.(*ssa.Call)
+				return ok && calleeName(x) == "(*"+configPkg+".overwritable).Overwrite"
+			}
+			isStore := func(in ssa.Instruction) bool {
+				x, ok := in.(*ssa.Call)
+				return ok && strings.HasSuffix(calleeName(x), "atomics.Value).Store")
+			}
+			e1 := exitsFromEntryAvoiding(f, isRec, nil)
+			e2 := exitsFromEntryAvoiding(f, isStore, nil)
+			r.Check(len(e1) == 0 && len(e2) == 0, "C17.R4", "ConfigProp.Overwrite records the override on every path", c.Pos(f.Pos()), "every return is preceded by overwritable.Overwrite and value.Store", "ConfigProp.Overwrite can return without recording the override (e.g. when the value equals the current one): a later API update then replaces the command-line value")
+		}
 		// (d) ConfigProp.Overwrite called only from the flag handlers
 		var ovCallers []string
 		for _, f := range li.Fns {
